@@ -134,12 +134,20 @@ func (p *pipePolicy) choose(c *Chooser, toks []*Token, step int) int {
 		return 0
 	}
 	pi, ci := -1, -1
+	others := 0
 	for i, t := range toks {
-		if t.Owner == "P" {
+		switch t.Owner {
+		case "P":
 			pi = i
-		} else {
+		case "C":
 			ci = i
+		default:
+			others++
 		}
+	}
+	if others > 0 {
+		// codec goroutines present: uniform choice among everything parked
+		return c.Intn("pick", len(toks))
 	}
 	if pi < 0 || ci < 0 {
 		return c.Intn("pick", len(toks))
@@ -383,6 +391,9 @@ func pipeExecJudge(r *Run, docs [][]byte, cfgs []parseCfg, reuse bool, pol *pipe
 	return
 }
 
+// schedParkCodecs makes schedExec also park the pool-tenancy hooks of the serializer's codec goroutines (owner "D").
+var schedParkCodecs = false
+
 // schedExec runs body as the calling goroutine of one or more library calls inside one bubble; every
 // pipeline hook parks and pol decides who proceeds. body must call newCall() between two library calls
 // (hand-off state starts over, the ring is reused). Returns true if the run got stuck or was abandoned.
@@ -397,6 +408,9 @@ func schedExec(r *Run, bound int, pol *pipePolicy, polName string, body func(new
 				return true, "P"
 			case simdjson.SimCRecv, simdjson.SimCReceived, simdjson.SimCStart, simdjson.SimCDone:
 				return true, "C"
+			case simdjson.SimPoolGet, simdjson.SimPoolPutBefore, simdjson.SimPoolPutAfter:
+				// codec goroutines of Serialize/Deserialize: when they proceed is a scheduling decision too
+				return schedParkCodecs, "D"
 			}
 			return false, ""
 		}}
@@ -491,6 +505,12 @@ func schedExec(r *Run, bound int, pol *pipePolicy, polName string, body func(new
 			}
 			k := pol.choose(r.C, toks, steps)
 			r.trace("%d %v", steps, toks[k])
+			// indistinguishable tokens (same owner, event, argument) are released together
+			for _, tk := range toks {
+				if tk != toks[k] && tk.Owner == toks[k].Owner && tk.Ev == toks[k].Ev && tk.Arg == toks[k].Arg {
+					s.Release(tk)
+				}
+			}
 			s.Release(toks[k])
 			steps++
 		}
